@@ -36,6 +36,7 @@ type X2Config struct {
 	LogDir       bool // real FileOutputStore in a temp directory; the mock runner writes a log per task
 	Initial      *store.PersistedData
 	Restart      bool // C10: save + restart check at every new state
+	Prefix       []XEvent // the search starts from the state this history leads to (Depth counts the events after it)
 	logDir       string
 }
 
@@ -178,10 +179,10 @@ func (c *X2Config) Run(deadline Budget, auditSlice int) *X2Result {
 	res := &X2Result{Outcomes: map[string]bool{}, Complete: true}
 	type node struct{ hist []XEvent }
 	seen := map[string][]XEvent{}
-	w0 := c.replayHist(nil)
-	seen[w0.StateKey(c.Symmetry)] = nil
+	w0 := c.replayHist(c.Prefix)
+	seen[w0.StateKey(c.Symmetry)] = c.Prefix
 	w0.Close()
-	frontier := []node{{nil}}
+	frontier := []node{{c.Prefix}}
 	seenNorm := map[string]bool{}
 	addViol := func(vs []Violation, hist []XEvent, w *World) {
 		for _, v := range vs {
